@@ -7,6 +7,7 @@ import (
 	"os"
 	"os/exec"
 	"path/filepath"
+	"regexp"
 	"strings"
 	"sync"
 	"time"
@@ -79,6 +80,10 @@ func (o *Obligation) script(e *Enc, extraAssume string, getValues []string) stri
 			}
 		}
 	}
+	// second relevance filter (characteristic symbols, transitive): see irrelevantAxioms
+	for i := range irrelevantAxioms(e.out[:n], append(append([]string{}, o.Extra...), extraAssume, o.Reach, o.Goal)) {
+		skip[i] = true
+	}
 	for i, l := range e.out[:n] {
 		if skip[i] {
 			continue
@@ -107,13 +112,13 @@ func (o *Obligation) script(e *Enc, extraAssume string, getValues []string) stri
 }
 
 type solveOut struct {
-	result  string
-	solver  string
-	seconds float64
-	model   string
-	raw     string
+	result    string
+	solver    string
+	seconds   float64
+	model     string
+	raw       string
 	perSolver map[string]float64
-	both    map[string]string // solver -> result (thorough: all solvers run to completion)
+	both      map[string]string // solver -> result (thorough: all solvers run to completion)
 }
 
 // runPortfolio runs all solvers on the script; first definitive answer wins (unless all==true).
@@ -136,7 +141,7 @@ func runPortfolio(script string, dir string, name string, timeout time.Duration,
 	defer cancel()
 	type r struct {
 		solver, result, out string
-		secs               float64
+		secs                float64
 	}
 	type member struct {
 		s      solverSpec
@@ -162,6 +167,7 @@ func runPortfolio(script string, dir string, name string, timeout time.Duration,
 			if err := os.WriteFile(sfile, []byte(st), 0o644); err == nil {
 				members = append(members, member{solvers[0], sfile, seed, true, solvers[0].name + "/strict"})
 				members = append(members, member{solvers[1], sfile, seed, true, solvers[1].name + "/strict"})
+				members = append(members, member{solvers[2], sfile, seed, true, solvers[2].name + "/strict"})
 			}
 		}
 	}
@@ -480,4 +486,114 @@ func sliceScript(script string) (string, int) {
 		b.WriteByte('\n')
 	}
 	return b.String(), len(drop)
+}
+
+// ---------- axiom relevance ----------
+
+// axiomSymRe: the specification-level symbols an SMT line talks about: ghost functions (|ghost!f|), ghost variables
+// (|G!v@n| — every version counts as the variable), pure Go functions (|pure!...|) and the encoder's own string / byte
+// string functions. strlen is deliberately absent (it occurs in every script and would make every string axiom relevant).
+var axiomSymRe = regexp.MustCompile(`\|(ghost![^|]*|pure![^|]*|G![^|@]*)[@|]|\((strcat|substr|strat|strless) `)
+
+func lineSyms(l string) []string {
+	var out []string
+	for _, m := range axiomSymRe.FindAllStringSubmatch(l, -1) {
+		if m[1] != "" {
+			out = append(out, m[1])
+		} else {
+			out = append(out, m[2])
+		}
+	}
+	return out
+}
+
+// irrelevantAxioms returns the indices of axiom assertions (the line after a "; axiom <name>" comment) that cannot
+// matter for this obligation: an axiom is kept iff it mentions no specification symbol at all (ground facts about Go
+// objects) or one of its characteristic (rarest) symbols occurs in the rest of the script or — transitively — in a kept axiom. Dropping an assumption
+// is always sound; it keeps quantified background theories of unrelated modules away from the solvers.
+// VERIF_ALL_AXIOMS=1 disables the filter.
+func irrelevantAxioms(lines []string, rest []string) map[int]bool {
+	drop := map[int]bool{}
+	if os.Getenv("VERIF_ALL_AXIOMS") != "" {
+		return drop
+	}
+	used := map[string]bool{}
+	type ax struct {
+		idx  int
+		syms []string
+		char []string
+	}
+	var axs []ax
+	for i, l := range lines {
+		if i > 0 && strings.HasPrefix(lines[i-1], "; axiom ") && strings.HasPrefix(l, "(assert ") {
+			axs = append(axs, ax{idx: i, syms: lineSyms(l)})
+			continue
+		}
+		if strings.HasPrefix(l, "(declare-") || strings.HasPrefix(l, ";") {
+			continue
+		}
+		for _, s := range lineSyms(l) {
+			used[s] = true
+		}
+	}
+	for _, l := range rest {
+		for _, s := range lineSyms(l) {
+			used[s] = true
+		}
+	}
+	// An axiom is "about" its rarest symbols (those mentioned by the fewest axioms): blen(keccak256(b)) == 32 is about
+	// keccak256, not about blen. Only these characteristic symbols make it relevant; all its symbols count as used once
+	// it is kept.
+	freq := map[string]int{}
+	for _, a := range axs {
+		seen := map[string]bool{}
+		for _, s := range a.syms {
+			if !seen[s] {
+				seen[s] = true
+				freq[s]++
+			}
+		}
+	}
+	for i := range axs {
+		minf := 0
+		for _, s := range axs[i].syms {
+			if minf == 0 || freq[s] < minf {
+				minf = freq[s]
+			}
+		}
+		for _, s := range axs[i].syms {
+			if freq[s] == minf {
+				axs[i].char = append(axs[i].char, s)
+			}
+		}
+	}
+	kept := map[int]bool{}
+	for changed := true; changed; {
+		changed = false
+		for _, a := range axs {
+			if kept[a.idx] {
+				continue
+			}
+			rel := len(a.syms) == 0
+			for _, s := range a.char {
+				if used[s] {
+					rel = true
+					break
+				}
+			}
+			if rel {
+				kept[a.idx] = true
+				changed = true
+				for _, s := range a.syms {
+					used[s] = true
+				}
+			}
+		}
+	}
+	for _, a := range axs {
+		if !kept[a.idx] {
+			drop[a.idx] = true
+		}
+	}
+	return drop
 }
